@@ -2,7 +2,7 @@
 # usage: matrix.sh <out.tsv> [all|target] [seed dirs…]
 # Runs checks against every seeded change on SCRATCH copies (never /repo, never /verif): the copy of
 # the repository at HEAD gets the patch, the copy of /verif runs `check <ID> quick` with VERIF_REPO.
-# "target" runs only the property the change is meant to break (reverts: the property of the fixed:
+# MX_CHECKS="C10 C13" overrides the list of checks. "target" runs only the property the change is meant to break (reverts: the property of the fixed:
 # entry); "all" runs every check. One line per (change, check): caught / held / error + first signature.
 export GOFLAGS=-mod=mod GOPROXY=off GOSUMDB=off GOTOOLCHAIN=local
 OUT=${1:-/tmp/matrix.tsv}; MODE=${2:-target}; shift 2
@@ -27,7 +27,7 @@ for s in $seeds; do
     revert-*) c=$(echo $s | cut -d- -f2); tgt=$(grep -o "property=C[0-9]* $c" $SRC/known_findings.json | cut -d= -f2 | cut -d' ' -f1);;
     *) tgt=${s%%-*};;
   esac
-  ids=$tgt; [ $MODE = all ] && ids=$ALL
+  ids=$tgt; [ $MODE = all ] && ids=$ALL; [ -n "${MX_CHECKS:-}" ] && ids=$MX_CHECKS
   for id in $ids; do
     t0=$(date +%s)
     out=$(cd $MX/verif && VERIF_REPO=$MX/repo timeout 1500 ./check $id quick 2>&1)
